@@ -512,11 +512,19 @@ package sftp
 //@   ensures len(result) == p.blen
 
 //@ func (*File).WriteTo$3
+//@   loop 1 ghost wTaken, wDone
+//@   loop 1 invariant ghost.wTaken - ghost.wDone == old(ghost.wTaken) - old(ghost.wDone)
+//@   update after recv readCh#1: ghost.wTaken = ghost.wTaken + ite(ret1, 1, 0)
+//@   update after recv res#1: ghost.wDone = ghost.wDone + 1
 //@   property C20, C01, C03
 //@   channel readCh invariant m.res != nil
 //@   requires pool != nil && pool.blen > 0 && pool.blen <= 0x7fffffff && pool.blen == chunkSize
 
 //@ func (*File).writeAtConcurrent$2
+//@   loop 1 ghost wTaken, wDone
+//@   loop 1 invariant ghost.wTaken - ghost.wDone == old(ghost.wTaken) - old(ghost.wDone)
+//@   update after recv workCh#1: ghost.wTaken = ghost.wTaken + ite(ret1, 1, 0)
+//@   update after recv res#1: ghost.wDone = ghost.wDone + 1
 //@   property C20, C01, C13, C03
 //@   requires attr(errCh, lo) == attr(workCh, lo) && attr(errCh, hi) == attr(workCh, hi)
 //@   channel workCh invariant attr(ch, lo) <= m.off && m.off <= attr(ch, hi) && m.res != nil
@@ -525,6 +533,10 @@ package sftp
 //@   loop 1 invariant attr(errCh, lo) == attr(workCh, lo) && attr(errCh, hi) == attr(workCh, hi)
 
 //@ func (*File).readFromWithConcurrency$2
+//@   loop 1 ghost wTaken, wDone
+//@   loop 1 invariant ghost.wTaken - ghost.wDone == old(ghost.wTaken) - old(ghost.wDone)
+//@   update after recv workCh#1: ghost.wTaken = ghost.wTaken + ite(ret1, 1, 0)
+//@   update after recv res#1: ghost.wDone = ghost.wDone + 1
 //@   property C20, C01, C13, C03
 //@   requires attr(errCh, lo) == attr(workCh, lo)
 //@   channel workCh invariant attr(ch, lo) <= m.off && m.off < math.MaxInt64 && m.res != nil
